@@ -42,7 +42,7 @@ func zzH_wrapStep() {
 	flags := verifChoose("flags", 2)
 	p, pb, _ := zzMakeParser(zzHP, ld, w, bs)
 	verifAssume(pb.BufferSize <= verifParam("PB"))
-	verifAssume(pb.ShrinkSize < pb.BufferSize)
+	verifAssume(pb.BufConfig.Verify() == nil) // the configurations the real Verify accepts, whatever they are
 	data0 := append([]byte(nil), pb.Data...)
 	off0 := pb.Off
 	r := &zzReader{max: verifParam("RD")}
